@@ -87,6 +87,9 @@ func verifSymTokens(n int) []token {
 		case 3: // calls and parentheses
 			verifAssume(verifOr(verifOr(verifOr(tt == tLparen, tt == tRparen), verifOr(tt == tComma, tt == tUnquotedIdentifier)),
 				verifOr(verifOr(tt == tCurrent, tt == tExpref), tt == tJSONLiteral)))
+		case 5: // projections: brackets, wildcards, filters, flatten, dots
+			verifAssume(verifOr(verifOr(verifOr(tt == tLbracket, tt == tRbracket), verifOr(tt == tStar, tt == tDot)),
+				verifOr(verifOr(tt == tUnquotedIdentifier, tt == tFilter), verifOr(tt == tFlatten, tt == tPipe))))
 		case 4: // operators and identifiers (precedence)
 			verifAssume(verifOr(verifOr(verifOr(tt == tPipe, tt == tOr), verifOr(tt == tAnd, tt == tEQ)),
 				verifOr(verifOr(verifOr(tt == tLT, tt == tNot), verifOr(tt == tDot, tt == tUnquotedIdentifier)), verifOr(tt == tStar, tt == tFlatten))))
